@@ -605,12 +605,14 @@ class AbstractExcelInPython(ABC):
             else:
                 range_and_criteria_zip[-1].append(i)
 
+        # позиция считается, когда её принимают все критерии (само значение может быть нулём или пустой строкой)
+        accepted = [True] * len(count_range)
         for [_range, criteria] in range_and_criteria_zip:
             for i in range(len(_range)):
                 if not criteria(_range[i]):
-                    count_range[i] = None
-        count_range = [i if count_condition(i) else None for i in count_range]
-        return len(list(filter(None, count_range)))
+                    accepted[i] = False
+
+        return len([i for i in range(len(count_range)) if accepted[i] and count_condition(count_range[i])])
 
     def _sumifs(self, sum_range: List[List], *range_and_criteria):
         # Ячейки в диапазоне, содержащие значение TRUE, оцениваются как 1; ячейки в диапазоне,
